@@ -12,7 +12,7 @@ func init() {
 			"array is retained in the receiver. A may-analysis: 'no sink reachable' is a sound argument for non-mutation under the stated assumptions.",
 		NotDecided: "that the contents written elsewhere are right; mutation through NodesInterface/CachedLeavesInterface implementations supplied by the user; the " +
 			"stand-alone GetMissingPositions (excluded by the property).",
-		Assumptions: []string{"memory is modelled flow-insensitively (weak updates): a write that only happens after a variable was re-pointed to a fresh array is still reported"},
+		Assumptions: []string{"memory is modelled flow-insensitively (weak updates) except for fields of local variables whose address never leaves the function (reaching definitions): elsewhere a write that only happens after a cell was re-pointed to a fresh array is still reported"},
 		Rules:       []RuleDef{{ID: "R17", Statement: "slice ownership over the API entries", Run: runC17}},
 	})
 }
